@@ -36,9 +36,9 @@ def run(cmd, timeout, mem_gb=8, cwd=None):
     except Exception as e:
         return dict(rc=-1, out='', err=str(e), timeout=False, s=time.time() - t0)
 
-def harness_cmds(cfile, h, outdir, reach=False, extra_defs=()):
+def harness_cmds(cfile, h, outdir, reach=False, extra_defs=(), tag_=''):
     name = h['name']
-    tag = name + ('.reach' if reach else '')
+    tag = name + ('.reach' if reach else '') + tag_
     a = os.path.join(outdir, tag + '.a.gb'); b = os.path.join(outdir, tag + '.b.gb')
     defs = [d for d in h.get('defs', '').split(',') if d] + list(extra_defs)
     if reach: defs.append('-DVERIF_REACH')
@@ -91,11 +91,12 @@ def reduce_trace(tr):
             out.append(dict(failure=st.get('property'), reason=st.get('reason'), line=st.get('sourceLocation', {}).get('line')))
     return out[-400:]
 
-def run_harness(cfile, h, outdir, reach=False, timeout=None, extra_defs=(), mem_gb=None):
+def run_harness(cfile, h, outdir, reach=False, timeout=None, extra_defs=(), mem_gb=None, properties=(), tag=''):
     mem_gb = mem_gb or float(h.get('mem', 8))
     os.makedirs(outdir, exist_ok=True)
     timeout = timeout or int(h.get('timeout', 300))
-    cc, gi, cb = harness_cmds(cfile, h, outdir, reach, extra_defs)
+    cc, gi, cb = harness_cmds(cfile, h, outdir, reach, extra_defs, tag)
+    for pr in properties: cb += ['--property', pr]
     res = dict(harness=h['name'], reach=reach, cmds=[' '.join(cc)] + ([' '.join(gi)] if gi else []) + [' '.join(cb)], verdict='undecided',
                obligations=0, discharged=0, failed=[], solver_s=0.0, reason='')
     t0 = time.time()
